@@ -18,6 +18,9 @@ from core.absexec import AbsExec, Adt, Tup, Ref, TOP, Frame, deref_value, store_
 from rules.mono import MonoDomain, TOWER, FP, OPS, _leaves
 
 
+RUN_BUDGET_S = 12      # wall-clock budget of one abstract run; beyond it the function is not judged (never a verdict)
+
+
 class Sup:
     """support of a base-field value: `zero` or the set of atoms it may depend on; `pure` = exactly one atom times a non-zero literal"""
     __slots__ = ("s", "zero", "pure")
@@ -135,7 +138,13 @@ def run_paths(F, b, operands, atom_ty=None):
             args.append(Ref(hf, 0))
         else:
             args.append(v)
-    rs = ex.run(b, args)
+    from core import absexec as _ax
+    import time as _t
+    _ax.WALL_DEADLINE = _t.time() + RUN_BUDGET_S
+    try:
+        rs = ex.run(b, args)
+    finally:
+        _ax.WALL_DEADLINE = None
     return [(v, fr.env.get("__pc", ())) for v, fr in rs]
 
 
